@@ -34,6 +34,31 @@ func (w *World) emit(sender *Node, to int, bcast bool, data []byte) {
 		return
 	}
 	m.Label = "byz:pass"
+	if b.resendFor >= 0 && m.Kind == "share" && to == b.resendFor && !m.Inject && sender.round <= 1 {
+		// resend template: the victim's share is replaced by a malformed private message; a
+		// CORRECT answer for the victim (the dealer reveals the true share in public, before or
+		// after the victim complains) and a second, well-formed but WRONG private share follow as
+		// separate actions of round 1. The first private message counts, the public answer repairs
+		// the victim's share, the late private share must be ignored.
+		real := append([]byte(nil), data[1:]...)
+		m.Data = []byte{tagShare, 1, 2}
+		m.Well, m.Shape, m.Poly, m.Label = false, false, "X", "byz:resend-template:malformed-first-share"
+		b.faulted = append(b.faulted, to)
+		ans := &Msg{From: b.idx, To: -1, Bcast: true, Data: append([]byte{tagAnswer, byte(to)}, real...), Kind: "answer",
+			Label: "byz:resend-template:correct-answer", Inject: true, Well: true, Shape: true, Poly: "A", Idx: to}
+		wrong, poly, idx, how := w.otherScalar(b, to, tagShare, w.c.Sub("resend.rnd"), []byte{tagShare})
+		sh := &Msg{From: b.idx, To: to, Bcast: false, Data: wrong, Kind: "share",
+			Label: "byz:resend-template:second-share:" + how, Inject: true, Well: true, Shape: true, Poly: poly, Idx: idx}
+		if w.c.Bool(1, 2, "resend.order") {
+			b.planned = append(b.planned, ans, sh)
+		} else {
+			b.planned = append(b.planned, sh, ans)
+		}
+		w.script[1] = append(w.script[1], b.idx, b.idx)
+		w.fault("byz.resend_template")
+		w.sendByz(b, m)
+		return
+	}
 	if b.truncVec != nil && (m.Kind == "share" || m.Kind == "vec") && !m.Inject {
 		// truncated-vector attack: first k points of a lower-degree dealing, then an undecodable
 		// point, then padding; every share matches the truncated polynomial
@@ -443,6 +468,15 @@ func (w *World) otherScalar(b *Byz, j int, tag byte, rnd *choice.Src, hdr []byte
 // inject performs one unsolicited Byzantine action of participant b, landing in `round`.
 func (w *World) inject(b *Byz, round int) {
 	c := w.c
+	if len(b.planned) > 0 && !b.crashed {
+		// next step of a template (see the resend template in emit)
+		m := b.planned[0]
+		b.planned = b.planned[1:]
+		m.Round = round
+		w.ev("byz %d: template step %s", b.idx, m.Label)
+		w.sendByz(b, m)
+		return
+	}
 	if len(b.held) > 0 {
 		// release a held-back message now: it takes its place in the sender's broadcast order here
 		m := b.held[0]
